@@ -182,8 +182,9 @@ impl Property for C03 {
          under Always(a); persist(a); a=Flush counts for process crash only; a clean restart counts for process crash), \
          recovery must succeed and: every queue of S_P not deleted later exists; no queue absent from S_P and not \
          created later exists; every record of S_P not truncated later is present byte-identical; next >= S_P.next; no \
-         record below S_P's first retained position reappears; every recovered record was appended. evaluations = crash \
-         images opened. non-trivial = some call after P exists AND >= 1 file was unlinked after P; distinct = \
+         record below S_P's first retained position reappears; every recovered record was appended. For every 4th process-crash \
+         point a second crash follows: create_queue (always flush + fsync) on the recovered log, drop, re-open — the queue and \
+         everything the first recovery showed must still be there. evaluations = crash images opened. non-trivial = some call after P exists AND >= 1 file was unlinked after P; distinct = \
          hash(history, loss model, crash point, variant)."
             .to_string()
     }
@@ -286,9 +287,50 @@ impl Property for C03 {
                         return Err(exec.failure(format!("{where_}: {msg}"), signature, extra));
                     }
                 };
-                recovered.driver.close()?;
+                // Two-crash extension (every 4th crash point, and always when replaying): on the recovered log, one more
+                // operation is persisted (create_queue always flushes + fsyncs) and the process "dies" again right after it
+                // returned (clean drop = everything flushed): the second recovery must still show that queue and everything
+                // the first recovery showed.
+                let two_crash = replay_point.is_some() || mix(history_hash, hash64(&ctx.point)) % 4 == 0;
+                let mut second_failure: Option<String> = None;
+                if two_crash {
+                    const PROBE: &str = "__c03_probe__";
+                    let created = {
+                        let log = recovered.driver.log.as_mut().unwrap();
+                        crate::util::guarded(|| log.create_queue(PROBE).is_ok())
+                    };
+                    let _ = recovered.driver.tracer.feed(mrecordlog::verif_hooks::take_events());
+                    recovered.driver.close()?;
+                    if created == Ok(true) {
+                        env.class("process-crash:two-crash-probe");
+                        match crate::recover::recover_dir(&crash_dir, case.policy) {
+                            Ok(mut second) => {
+                                second.driver.close()?;
+                                if !second.state.contains_key(PROBE) {
+                                    second_failure = Some(format!("a queue created (flushed and fsynced) on the recovered log is gone after the next restart; second recovery shows {}", describe_state(&second.state)));
+                                } else {
+                                    let mut expected = recovered.state.clone();
+                                    expected.insert(PROBE.to_string(), crate::model::QState { recs: Vec::new(), next: 0 });
+                                    if let Some(diff) = crate::model::diff_states(&expected, &second.state) {
+                                        second_failure = Some(format!("after one more persisted operation and a restart the recovered log lost state: {diff}"));
+                                    }
+                                }
+                            }
+                            Err(crate::recover::RecoverError::Engine(msg)) => return Err(CaseError::Engine(msg)),
+                            Err(err) => {
+                                let (msg, _) = err.into_case_error()?;
+                                second_failure = Some(format!("the recovered log cannot be re-opened after one more persisted operation: {msg}"));
+                            }
+                        }
+                    }
+                } else {
+                    recovered.driver.close()?;
+                }
                 if let Err((msg, signature)) = monotone_check(&history, p, upto, &recovered.state) {
                     return Err(exec.failure(format!("{where_}: {msg}; recovered {}", describe_state(&recovered.state)), signature, extra));
+                }
+                if let Some(msg) = second_failure {
+                    return Err(exec.failure(format!("{where_}: {msg}"), "persisted-after-recovery-lost", extra));
                 }
                 let p_end = p.and_then(|idx| op_end_effect.get(&idx).copied()).unwrap_or(0);
                 let later_exists = upto.map_or(false, |limit| p.map_or(true, |idx| limit > idx));
